@@ -16,6 +16,8 @@ import (
 	"time"
 
 	"github.com/titpetric/vuego"
+	"golang.org/x/net/html"
+	"golang.org/x/net/html/atom"
 )
 
 func renderStr(t *testing.T, tpl string, data any) (out string, err error) {
@@ -280,5 +282,21 @@ func TestFinding19a_Doctype(t *testing.T) {
 	out, err := renderFS(t, map[string]string{"p.vuego": "<!DOCTYPE html><html><head></head><body><p>x</p></body></html>"}, "p.vuego", nil)
 	if err != nil || !strings.Contains(strings.ToLower(out), "<!doctype html>") {
 		t.Fatalf("doctype dropped: %q err=%v", out, err)
+	}
+}
+
+// row 25 (found by C09.R3 while building the checker) — C09.R3/C10.R2
+func TestFinding25_RenderNodesWritesCallerMap(t *testing.T) {
+	nodes, err := html.ParseFragment(strings.NewReader(`<template :x="5"></template><p>{{ x }}</p>`), &html.Node{Type: html.ElementNode, Data: "body", DataAtom: atom.Body})
+	if err != nil {
+		t.Fatal(err)
+	}
+	data := map[string]any{"a": 1}
+	var buf bytes.Buffer
+	if err := vuego.NewVue(nil).RenderNodes(&buf, nodes, data); err != nil {
+		t.Fatal(err)
+	}
+	if len(data) != 1 {
+		t.Fatalf("caller's map was modified by RenderNodes: %v (out %q)", data, buf.String())
 	}
 }
